@@ -1,5 +1,5 @@
 """C02 -- every format computes the published algorithm bit for bit."""
-from contracts import shacrypt
+from contracts import md5crypt, shacrypt
 from pyvc.runner import Bounded, Finite
 
 LEVEL = "other"
@@ -20,6 +20,28 @@ ASSUMPTIONS = [
     "repeat_string and encode_transposed_bytes are uninterpreted on both sides (C12 covers the encoder; tables compared separately)",
     "digest primitives, libcrypt, Django, bcrypt are trusted oracles of the bounded comparison",
 ]
-CONTRACTS = [shacrypt.passlib_contract("C02", False), shacrypt.passlib_contract("C02", True), shacrypt.libpass_contract("C02")]
-FINITE = [Finite("sha-crypt-tables-identical", shacrypt.tables_equal, "passlib and libpass carry identical _c_digest_offsets / transposition tables")]
+CONTRACTS = [shacrypt.passlib_contract("C02", False), shacrypt.passlib_contract("C02", True), shacrypt.libpass_contract("C02"),
+             md5crypt.contract("C02", False), md5crypt.contract("C02", True)]
+FINITE = [Finite("transposition-tables-published-order", md5crypt.published_tables, "md5-crypt / sha256-crypt / sha512-crypt transposition tables (passlib and libpass) equal the output order of the published algorithms"),
+          Finite("sha-crypt-tables-identical", shacrypt.tables_equal, "passlib and libpass carry identical _c_digest_offsets / transposition tables")]
 BOUNDED = [Bounded("c02", "harness/c02.py", descr="~85 formats against independent references, crypt(3), Django, bcrypt, hashlib.scrypt", timeout=900)]
+
+M5 = "passlib/handlers/md5_crypt.py"
+S2 = "passlib/handlers/sha2_crypt.py"
+MUTANTS = [
+    ("md5-crypt: bit walk appends NUL on the clear bits", M5, "a_ctx_update(_BNULL if i & 1 else evenchar)", "a_ctx_update(evenchar if i & 1 else _BNULL)", "refute", "md5_crypt.use_apr=False"),
+    ("md5-crypt: 998 rounds (16 tail pairs)", M5, "for even, odd in data[:17]:", "for even, odd in data[:16]:", "refute", "md5_crypt.use_apr=False"),
+    ("md5-crypt: 22 blocks", M5, "    blocks = 23\n", "    blocks = 22\n", "refute", "md5_crypt.use_apr=False"),
+    ("md5-crypt: tail pairs hash digest before the constant", M5, "    for even, odd in data[:17]:\n        dc = md5(odd + md5(dc + even).digest()).digest()", "    for even, odd in data[:17]:\n        dc = md5(md5(dc + even).digest() + odd).digest()", "refute", "md5_crypt.use_apr=False"),
+    ("md5-crypt: permutation salt+pwd+pwd built as pwd+pwd+salt", M5, "salt + pwd, salt + pwd_pwd]", "salt + pwd, pwd_pwd + salt]", "refute", "md5_crypt.use_apr=False"),
+    ("md5-crypt: last character instead of first on clear bits", M5, "evenchar = pwd[:1]", "evenchar = pwd[-1:]", "refute", "md5_crypt.use_apr=False"),
+    ("md5-crypt: apr magic used for the plain variant", M5, "        magic = _MD5_MAGIC", "        magic = _APR_MAGIC", "refute", "md5_crypt.use_apr=False"),
+    ("md5-crypt: B computed over pwd+pwd+salt", M5, "db = md5(pwd + salt + pwd).digest()", "db = md5(pwd + pwd + salt).digest()", "refute", "md5_crypt.use_apr=False"),
+    ("md5-crypt: harmless renaming of a local", M5, "    pwd_salt = pwd + salt\n    perms = [pwd, pwd_pwd, pwd_salt, pwd_salt + pwd, salt + pwd, salt + pwd_pwd]", "    ps = pwd + salt\n    perms = [pwd, pwd_pwd, ps, ps + pwd, salt + pwd, salt + pwd_pwd]", "hold", "md5_crypt.use_apr=False"),
+]
+_SHA = "passlib._raw_sha2_crypt.use_512=False"
+MUTANTS += [
+    ("sha-crypt: fixed-memory branch repeats the password len(pwd)+1 times", S2, "        i = pwd_len - 1\n        while i:", "        i = pwd_len\n        while i:", "refute", _SHA),
+    ("sha-crypt: odd tail round hashes the odd constant", S2, "dc = hash_const(dc + data[pairs][0]).digest()", "dc = hash_const(dc + data[pairs][1]).digest()", "refute", _SHA),
+    ("sha-crypt: salt digest S from 16 + A[1] copies", S2, "ds = hash_const(salt * (16 + da[0])).digest()[:salt_len]", "ds = hash_const(salt * (16 + da[1])).digest()[:salt_len]", "refute", _SHA),
+]
